@@ -1,5 +1,9 @@
 import Driver.Storage
+import Driver.Rns
+import Driver.Notif
 import Canine.Query.Storage
+import Canine.Query.Rns
+import Canine.Query.Notif
 open Lean (Json FromJson ToJson fromJson? toJson)
 namespace Canine
 namespace Query
@@ -9,6 +13,14 @@ namespace Storage.Query
 deriving instance FromJson, ToJson for Q
 deriving instance FromJson, ToJson for Resp
 end Storage.Query
+namespace Rns.Query
+deriving instance FromJson, ToJson for Q
+deriving instance FromJson, ToJson for Resp
+end Rns.Query
+namespace Notif.Query
+deriving instance FromJson, ToJson for Q
+deriving instance FromJson, ToJson for Resp
+end Notif.Query
 end Canine
 
 namespace Driver.Query
@@ -26,10 +38,24 @@ def checkStorage (j : Json) : Except String (Option String) := do
   let model := Storage.Query.run st now q
   return cmpField "resp" model impl
 
+def checkRns (j : Json) : Except String (Option String) := do
+  let st : Rns.State ← getField j "state" >>= fromJson?
+  let q : Rns.Query.Q ← getField j "q" >>= fromJson?
+  let impl : Rns.Query.Resp ← getField j "resp" >>= fromJson?
+  return cmpField "resp" (Rns.Query.run st q) impl
+
+def checkNotif (j : Json) : Except String (Option String) := do
+  let st : Notif.State ← getField j "state" >>= fromJson?
+  let q : Notif.Query.Q ← getField j "q" >>= fromJson?
+  let impl : Notif.Query.Resp ← getField j "resp" >>= fromJson?
+  return cmpField "resp" (Notif.Query.run st q) impl
+
 def check (j : Json) : Except String (Option String) := do
   let sub : String ← getField j "sub" >>= fromJson?
   match sub with
   | "storage" => checkStorage j
+  | "rns" => checkRns j
+  | "notif" => checkNotif j
   | s => throw s!"unknown query module {s}"
 
 end Driver.Query
